@@ -81,7 +81,8 @@ Proof.
 Qed.
 
 (* ---- the inverse direction: the civil date of a date's day number is that date ---- *)
-Lemma era_dates_checked : era_dates_ok = true.
+Lemma era_dates_checked :
+  range_all 400 (fun y => range_all 12 (fun m => range_all 31 (fun d => era_date_ok y m d) 1) 1) 1 = true.
 Proof. vm_compute. reflexivity. Qed.
 
 Lemma days_in_month_le : forall y m, days_in_month y m <= 31.
@@ -101,15 +102,17 @@ Proof.
 Qed.
 
 Lemma era_date : forall y m d, 1 <= y <= 400 -> 1 <= m <= 12 -> 1 <= d <= days_in_month y m ->
-  0 <= days_from_civil y m d < 146097 /\ civil_era (days_from_civil y m d) = (y, m, d).
+  0 <= days_from_civil y m d < 146097 /\ civil_era (days_from_civil y m d) = (y, m, d) /\
+  (y <= 399 -> days_from_civil y m d < 145731).
 Proof.
   intros y m d Y M D.
   pose proof (days_in_month_le y m) as L.
   assert (H3 : era_date_ok y m d = true) by (apply (range_all_3 era_date_ok era_dates_checked); lia).
   unfold era_date_ok in H3.
   destruct (civil_era (days_from_civil y m d)) as [[y' m'] d'].
-  assert (E : y' = y /\ m' = m /\ d' = d /\ 0 <= days_from_civil y m d < 146097) by lia.
-  destruct E as (-> & -> & -> & R). split; [exact R | reflexivity].
+  assert (E : y' = y /\ m' = m /\ d' = d /\ 0 <= days_from_civil y m d < 146097 /\
+              (y <= 399 -> days_from_civil y m d < 145731)) by lia.
+  destruct E as (-> & -> & -> & R & R'). split; [exact R | split; [reflexivity | exact R']].
 Qed.
 
 (* for EVERY integer year (month and day real) *)
@@ -121,49 +124,24 @@ Proof.
   assert (Y0 : 1 <= y0 <= 400) by (unfold y0; pose proof (Z.mod_pos_bound (y - 1) 400); lia).
   assert (EY : y = y0 + 400 * q) by (unfold y0, q; pose proof (Z.div_mod (y - 1) 400); lia).
   rewrite EY in D |- *. rewrite days_in_month_shift in D. rewrite days_from_civil_shift.
-  destruct (era_date y0 m d Y0 M D) as [R E].
+  destruct (era_date y0 m d Y0 M D) as (R & E & _).
   unfold civil_from_days.
   replace (days_from_civil y0 m d + 146097 * q) with (days_from_civil y0 m d + q * 146097) by lia.
   rewrite Z.mod_add by lia. rewrite Z.div_add by lia.
-  rewrite (Z.mod_small _ _ R), (Z.div_small _ _ R), E. f_equal. f_equal. lia.
+  rewrite (Z.mod_small _ _ R), (Z.div_small _ _ R), E. reflexivity.
 Qed.
 
-(* building a reading from fields and reading the fields back gives the fields *)
-Lemma fields_of_wall_of_fields : forall y m d h mi s us,
-  valid_civil y m d = true -> valid_clock h mi s us = true ->
-  let w := wall_of_fields y m d h mi s us in
-  dt_field FYear w = y /\ dt_field FMonth w = m /\ dt_field FDay w = d /\
-  dt_field FHour w = h /\ dt_field FMinute w = mi /\ dt_field FSecond w = s /\ dt_field FMicrosecond w = us /\
-  in_range w = true.
+(* day numbers of real dates of years 1..9999 are in range *)
+Lemma days_range : forall y m d, valid_civil y m d = true -> 0 <= days_from_civil y m d < DAYS_TOTAL.
 Proof.
-  intros y m d h mi s us VC VK w. unfold valid_civil in VC. unfold valid_clock in VK.
-  assert (M : 1 <= m <= 12) by lia. assert (D : 1 <= d <= days_in_month y m) by lia.
-  pose proof (civil_inverse y m d M D) as CI.
-  set (c := h * 3600000000 + mi * 60000000 + s * 1000000 + us).
-  assert (C : 0 <= c < US_DAY) by (unfold c, US_DAY; lia).
-  assert (W : w = days_from_civil y m d * US_DAY + c) by (unfold w, wall_of_fields, c; lia).
-  assert (Q : w / US_DAY = days_from_civil y m d).
-  { symmetry. apply (Z.div_unique w US_DAY _ c); [lia | lia]. }
-  assert (Rm : w mod US_DAY = c).
-  { symmetry. apply (Z.mod_unique w US_DAY (days_from_civil y m d) c); [lia | lia]. }
-  unfold dt_field. rewrite Q, CI. cbn [fst snd].
-  assert (RNG : in_range w = true).
-  { (* day numbers of years 1..9999 *)
-    destruct (civil_roundtrip _ _ _ _ CI) as (_ & _ & _).
-    assert (B : 0 <= days_from_civil y m d < DAYS_TOTAL).
-    { unfold days_from_civil, days_before_year, days_before_month, days_before_month_common, DAYS_TOTAL.
-      pose proof (days_in_month_le y m).
-      assert (0 <= (if (2 <? m) && is_leap y then 1 else 0) <= 1) by (destruct ((2 <? m) && is_leap y); lia).
-      cbv zeta.
-      assert (MM : 0 <= match m with
-                | 1 => 0 | 2 => 31 | 3 => 59 | 4 => 90 | 5 => 120 | 6 => 151 | 7 => 181
-                | 8 => 212 | 9 => 243 | 10 => 273 | 11 => 304 | 12 => 334 | _ => 365 end <= 334).
-      { assert (m = 1 \/ m = 2 \/ m = 3 \/ m = 4 \/ m = 5 \/ m = 6 \/ m = 7 \/ m = 8 \/ m = 9 \/ m = 10 \/ m = 11 \/ m = 12) as J by lia.
-        repeat (destruct J as [-> | J]; [lia|]). subst m. lia. }
-      Z.div_mod_to_equations. lia. }
-    unfold in_range, MAXWALL. unfold DAYS_TOTAL, US_DAY in *. lia. }
-  repeat split; try exact RNG; unfold US_DAY, US_SECOND in *; rewrite ?Rm; unfold c;
-    Z.div_mod_to_equations; lia.
+  intros y m d V. unfold valid_civil in V.
+  set (q := (y - 1) / 400). set (y0 := (y - 1) mod 400 + 1).
+  assert (Y0 : 1 <= y0 <= 400) by (unfold y0; pose proof (Z.mod_pos_bound (y - 1) 400); lia).
+  assert (EY : y = y0 + 400 * q) by (unfold y0, q; pose proof (Z.div_mod (y - 1) 400); lia).
+  assert (Q : 0 <= q <= 24) by lia.
+  assert (D : 1 <= d <= days_in_month y0 m) by (rewrite EY in V; rewrite days_in_month_shift in V; lia).
+  destruct (era_date y0 m d Y0 ltac:(lia) D) as (R & _ & R').
+  rewrite EY, days_from_civil_shift. unfold DAYS_TOTAL. lia.
 Qed.
 
 (* the wall reading is determined by its fields: rebuilding from them gives it back *)
